@@ -320,7 +320,7 @@ def replay_file(pid, path):
     if line[1] == "cursor":
         import parse_props
         return parse_props.replay_cursor(pid, line, path)
-    if line[1] in ("lowerif", "emitstmt", "assign", "lowerstmts", "emitexprs", "callargs"):
+    if line[1] in ("lowerif", "emitstmt", "assign", "lowerstmts", "emitexprs", "callargs", "match"):
         import stmt_props
         return stmt_props.replay(pid, line, path)
     if line[1] == "parse":
@@ -337,7 +337,7 @@ def replay_file(pid, path):
             say(f"VIOLATION property={pid} replay={path}")
             return 1
         return 0
-    if line[1] in ("tc", "compat", "constvalues", "nominal", "constslice", "constindex"):
+    if line[1] in ("tc", "compat", "constvalues", "nominal", "constslice", "constindex", "constcycle", "accesstotal"):
         import tc_props
         bad = tc_props.replay_tc(pid, line)
         if bad:
